@@ -501,3 +501,14 @@ Definition explicit_actions (t : tree) : bool := forallb (fun a => negb (aimplic
 Definition result (a : answer) : code * N * bool := (acode a, akind a, aimplicit a).
 
 Definition is_real (a : att) : bool := match a with Real => true | Fake => false end.
+
+(* a leaf ACL object that is used at several places of the tree never starts a lookup (the theorems cover
+   shared synchronous ACLs; leaves that may go asynchronous must occur once) *)
+Definition shared_leaves_sync (t : tree) (tbl : list (N * lscript)) : Prop :=
+  forall l1 l2 j, tree_leaf_ids t = l1 ++ l2 -> In j l1 -> In j l2 -> attempts (lookup_script tbl j) = [].
+
+(* a checkable sufficient condition *)
+Definition shared_leaves_sync_b (t : tree) (tbl : list (N * lscript)) : bool :=
+  forallb (fun j => (count_occ N.eq_dec (tree_leaf_ids t) j <=? 1)%nat
+                    || match attempts (lookup_script tbl j) with [] => true | _ => false end)
+          (tree_leaf_ids t).
